@@ -147,6 +147,14 @@ class Crate:
         for b in self.bodies:
             self._by_path.setdefault(b["path"], []).append(b)
 
+    def inlined(self):
+        """The helper-inlined view of this crate (pv/inline.py), built on first use."""
+        if getattr(self, "_inlined", None) is None:
+            from . import inline
+            self._inlined = Crate(inline.inlined_doc(self, protected=LOOKED_UP - UNPROTECT), self.file)
+            self._inlined._inlined = self._inlined
+        return self._inlined
+
     def fn(self, path):
         """The unique body with this def-path (None if absent)."""
         v = self._by_path.get(path)
@@ -189,10 +197,14 @@ class Facts:
         if not cs:
             return None
         # prefer the richest feature set (workspace member build, not the build-dependency one)
-        return sorted(cs, key=lambda c: -len(c.features))[0]
+        c = sorted(cs, key=lambda c: -len(c.features))[0]
+        return c.inlined() if VIEW == "inlined" else c
 
 
 _facts = {}
+UNPROTECT = set()   # functions in which the raw view located a violation: inlinable even if looked up by name
+LOOKED_UP = set()   # functions holding an obligation the raw view found satisfied: anchors of the rules, not inlined away
+VIEW = "raw"   # "raw" | "inlined": which representation Facts.crate() hands to the rules (see pv/inline.py)
 
 
 def facts(config, repo=None):
@@ -263,5 +275,6 @@ def harness_crates(name, crates, repo=None, subst=None):
     for f in sorted(glob.glob(os.path.join(d, "*.json"))):
         with open(f) as fh:
             doc = json.load(fh)
-        out.setdefault(doc["crate"], []).append(Crate(doc, f))
+        c = Crate(doc, f)
+        out.setdefault(doc["crate"], []).append(c.inlined() if VIEW == "inlined" else c)
     return out
